@@ -155,6 +155,34 @@ def run_C03(res):
     for p, h, tag in spec:
         kind, args, det = limit_args(rnd)
         cases.append((p, h, "1", kind, args, det, tag))
+    # key twins: same placement, turn, rights and ep file (hence the same key) but a castling right that refers to the OTHER rook of
+    # the wing; the table left by a search of one twin is handed to a search of the other (a stored castling move may be illegal there)
+    pats = [l for l in run_driver([f"gpattern {res.seed + 31} 0 {600 if res.tier == 'quick' else 12000} 1"]) if l and l != "bad-op"]
+    twins = []
+    for p in pats:
+        P = Pos(p)
+        ksq = (P.piece(5) & P.c0).bit_length() - 1
+        rooks = [f for f in range(8) if (P.piece(3) & P.c0) >> f & 1]
+        for idx, right, cf in ((12, "usK", 16), (13, "usQ", 17)):
+            if P.t[idx] != "1" or ksq < 0 or ksq > 7:
+                continue
+            cur = int(P.t[cf])
+            others = [f for f in rooks if f != cur and ((f > ksq) == (cur > ksq))]
+            if others:
+                t = list(P.t)
+                t[cf] = str(rnd.choice(others))
+                twins.append((p, " ".join(t)))
+    okA = in_domain([a for a, b in twins])
+    okB = in_domain([b for a, b in twins])
+    twins = [tw for tw, x, y in zip(twins, okA, okB) if x and y][: (40 if res.tier == "quick" else 800)]
+    outA = run_hx_par([f"root {a} {Pos(a).hash} 1 depth {rnd.choice([2, 3])}" for a, b in twins])
+    for (a, b), o in zip(twins, outA):
+        q = parse_root(o)
+        if q["panic"]:
+            continue
+        tt = "1;" + ";".join(q["tt"].split(";")[1:]) if ";" in q["tt"] else "1"
+        for args, det in (("nodes 0", True), ("depth 0", True), ("movetime 0", False), ("depth 1", True)):
+            cases.append((b, [Pos(b).hash], tt, args.split()[0], args, det, "key-twin-table"))
     # roots without any legal move (mate / stalemate): the answer must be the null move
     sparse = [l for l in run_driver([f"gsparse {res.seed + 9} {3000 if res.tier == 'quick' else 60000} 0"]) if l and l != "bad-op"]
     nomoves = [p for p, m in zip(sparse, run_driver_par(["moves " + p for p in sparse])) if m == "-"]
@@ -209,6 +237,11 @@ def run_C13(res):
     res.coverage["rule"] = ("every search is run twice by the real driver from equal initial state (position, history, table image) and once by the Lean model: "
                             "history vector and position unchanged afterwards (compared inside the harness), identical best move and identical info stream "
                             "(depth, seldepth, score, nodes, pv, hashfull) and final table image; limits depth 1..4, nodes; also time limits for the unchanged-state clause")
+    # roots whose search meets repetition nodes for certain (the only move returns to a position of the history)
+    sparse = [l for l in run_driver([f"gsparse {res.seed + 21} {2500 if res.tier == 'quick' else 40000} 0"]) if l and l != "bad-op"]
+    reps = [(p, h) for p, h, tag in build_repetition_roots(res, sparse, rnd)]
+    res.count("repetition_roots", len(reps))
+    roots = reps[:40 if res.tier == "quick" else 600] + roots
     tts = prefilled_tables(res, roots, rnd)
     reqs, det = [], []
     for (p, h), tt in zip(roots, tts):
@@ -221,8 +254,9 @@ def run_C13(res):
             a, d = f"movetime {rnd.choice([0, 2, 8])}", False
         reqs.append(f"root {p} {hist_str(h)} {tt if rnd.random() < 0.6 else '1'} {a}")
         det.append(d)
-    a1 = run_hx_par(reqs)
-    a2 = run_hx_par(reqs)
+    # the same request twice IN A ROW IN THE SAME PROCESS (hidden process-wide state would show), pairs kept together
+    both = run_hx_par([r for r in reqs for _ in (0, 1)], contiguous=True)
+    a1, a2 = both[0::2], both[1::2]
     di = [i for i, d in enumerate(det) if d]
     model = dict(zip(di, run_driver_par([reqs[i] for i in di])))
     for i, r in enumerate(a1):
